@@ -1531,12 +1531,27 @@ func (b *Bitmap) ImportRoaringBits(data []byte, clear bool, log bool, rowSize ui
 	var itrPointer *uint16
 	var itrErr error
 
+	// Walk the whole payload once before touching the bitmap: containers are
+	// applied as they are decoded, so a malformed container further in would
+	// otherwise leave the earlier ones applied (and unlogged) by a rejected
+	// import.
 	itr, err = newRoaringIterator(data)
 	if err != nil {
 		return 0, nil, err
 	}
 	if itr == nil {
 		return 0, nil, errors.New("failed to create roaring iterator, but don't know why")
+	}
+	for itrErr == nil {
+		_, _, _, _, _, itrErr = itr.Next()
+	}
+	if itrErr != io.EOF {
+		return 0, nil, itrErr
+	}
+
+	itr, err = newRoaringIterator(data)
+	if err != nil {
+		return 0, nil, err
 	}
 
 	rowSet = make(map[uint64]int)
